@@ -170,6 +170,20 @@ static void *first_life(void *p)
 	return NULL;
 }
 
+/* Clock of the next event.  "clockmode logical": the program has a time base of its own that starts at
+ * zero (a simulator, a clock rebased to the start of the run): 0, 100, 200, ...  Otherwise the library's. */
+static __thread int logical_clock = 0;
+static __thread uint64_t lclock = 0;
+
+static uint64_t next_clock(void)
+{
+	if (!logical_clock)
+		return ovni_clock_now();
+	uint64_t c = lclock;
+	lclock += 100;
+	return c;
+}
+
 static int run_script(const char *script, const char *logpath)
 {
 	FILE *f = fopen(script, "r");
@@ -221,7 +235,7 @@ static int run_script(const char *script, const char *logpath)
 			uint32_t id;
 			sscanf(rest, "%7s %d %" SCNu32, mcv, &ps, &id);
 			struct ovni_ev ev = {0};
-			clk = ovni_clock_now();
+			clk = next_clock();
 			ovni_ev_set_clock(&ev, clk);
 			ovni_ev_set_mcv(&ev, mcv);
 			if (ps > 0) {
@@ -234,7 +248,7 @@ static int run_script(const char *script, const char *logpath)
 			char mcv[8], hex[64] = "";
 			sscanf(rest, "%7s %63s", mcv, hex);
 			struct ovni_ev ev = {0};
-			clk = ovni_clock_now();
+			clk = next_clock();
 			ovni_ev_set_clock(&ev, clk);
 			ovni_ev_set_mcv(&ev, mcv);
 			uint8_t p[32];
@@ -249,7 +263,7 @@ static int run_script(const char *script, const char *logpath)
 			uint32_t nb, id;
 			sscanf(rest, "%7s %" SCNu32 " %" SCNu32, mcv, &nb, &id);
 			struct ovni_ev ev = {0};
-			clk = ovni_clock_now();
+			clk = next_clock();
 			ovni_ev_set_clock(&ev, clk);
 			ovni_ev_set_mcv(&ev, mcv);
 			if (nb <= OVNI_MAX_EV_BUF)
@@ -326,6 +340,8 @@ static int run_script(const char *script, const char *logpath)
 				rmdir("/nonexistent/verif-pad");
 				syscall(SYS_getdents64, -1, buf, 0);
 			}
+		} else if (!strcmp(op, "clockmode")) {
+			logical_clock = strstr(rest, "logical") != NULL;
 		} else if (!strcmp(op, "sysmark")) {
 			/* a system call that changes nothing and is easy to find in a strace log */
 			unlink("/nonexistent/verif-sysmark");
